@@ -39,7 +39,10 @@ def plan(tier, seed):
     n = 16 if thorough else 4
     for s in range(n):
         jobs.append({"variant": "c" if s % 2 else "py", "part": "ipv6", "shard": s, "nshards": n, "params": {"addrs": 600 if thorough else 40}})
-        jobs.append({"variant": "c" if s % 2 else "py", "part": "labels", "shard": s, "nshards": n, "params": {"n": 200000 if thorough else 5000}})
+        # half of the label shards run AFTER the caches were reconfigured (default sizes / small sizes): the canonical host is not a
+        # function of the cache configuration
+        pre = {2: {}, 3: {"idna_encode_size": 8, "idna_decode_size": 8, "encode_host_size": 8}}.get(s % 4)
+        jobs.append({"variant": "c" if s % 2 else "py", "part": "labels", "shard": s, "nshards": n, "params": dict({"n": 200000 if thorough else 5000}, **({"preconfigure": pre} if pre is not None else {}))})
     for s in range(2):
         jobs.append({"variant": "c" if s % 2 else "py", "part": "optree", "shard": s, "nshards": 2, "params": {"n": 150000 if thorough else 6000}})
     return jobs
@@ -535,6 +538,15 @@ def invariant(ctx, u, case):
 
 
 def run(ctx):
+    if ctx.params.get("preconfigure") is not None:
+        import warnings
+
+        import yarl
+
+        with warnings.catch_warnings():
+            warnings.simplefilter("ignore")
+            yarl.cache_configure(**ctx.params["preconfigure"])
+        ctx.count("shards_run_after_cache_configure")
     if ctx.part == "optree":
         from ..ops import run_optrees
 
